@@ -388,8 +388,23 @@ package grpctunnel
 //@     assert[C11] @rev1 frame.ProtocolRevision == 1
 //@   at call newSenderWithoutFlowControl#1
 //@     assert[C11] @rev0 frame.ProtocolRevision == 0
+//@   ghost reqmd metadata.MD = nil
+//@   ghost reqctx context.Context = nil
+//@   at call fromProto#1
+//@     assert[C02,C17] @reqsrc arg0 == frame.RequestHeaders
+//@   at aftercall fromProto#1
+//@     ghost reqmd = result
+//@   at call NewIncomingContext#1
+//@     assert[C02,C17] @reqmd arg0 == old(ctx) && arg1 == reqmd
+//@   at aftercall NewIncomingContext#1
+//@     ghost reqctx = result
+//@   at call timeoutFromHeaders#1
+//@     assert[C18] @fromrequest arg0 == reqmd
+//@   at call WithCancel#1
+//@     assert[C02,C04,C17] @handlerctx arg0 == reqctx
 //@   at call WithTimeout#1
 //@     assert[C18] @deadline arg1 == timeout
+//@     assert[C02,C04,C17] @handlerctx arg0 == reqctx
 //@   at go#1
 //@     assert[C08,C14] @registered s.streams[streamID] == str && str.streamID == streamID && str.svr == s && str.stream == s.stream
 //@     assert[C08]     @handler    md != nil && arg1 == md && arg0 == str
@@ -648,9 +663,22 @@ package grpctunnel
 //@     ghost createErr = result1
 //@   at aftercall getStream#1
 //@     ghost getErr = result1
+//@   ghost carrierCtx context.Context = nil
+//@   ghost valueCtx context.Context = nil
+//@   ghost cancelCtx context.Context = nil
+//@   at aftercall Context#1
+//@     ghost carrierCtx = result
+//@   at call WithValue#1
+//@     assert[C17] @openingmd arg0 == carrierCtx && arg1 is tunnelMetadataIncomingContextKey && arg2 is metadata.MD && as(arg2, metadata.MD) == tunnelMetadata
+//@   at aftercall WithValue#1
+//@     ghost valueCtx = result
+//@   at call WithCancel#1
+//@     assert[C04,C17] @derived arg0 == valueCtx
+//@   at aftercall WithCancel#1
+//@     ghost cancelCtx = result0
 //@   at call createStream#1
 //@     ghost root = arg1
-//@     assert[C04,C17] @rootctx arg1 == ctx
+//@     assert[C04,C17] @rootctx arg1 == ctx && arg1 == cancelCtx
 //@     assert[C08]     @sameid  arg2 == in.StreamId
 //@   at call getStream#1
 //@     assert[C01,C03] @demux arg1 == in.StreamId
@@ -991,7 +1019,8 @@ package grpctunnel
 //@   at call readMsgLocked#2
 //@     assert[C16] @lookahead e1 == nil && !st.isServerStream
 //@   ensures[C01,C16] @first     err == nil ==> e1 == nil && sameSlice(data, d1)
-//@   ensures[C16]     @single    err == nil && !st.isServerStream ==> count("call:readMsgLocked") == 2 && e2 == io.EOF && ok2
+//@   ensures[C02,C16] @single    err == nil && !st.isServerStream ==> count("call:readMsgLocked") == 2 && e2 == io.EOF && ok2
+//@   ensures[C02]     @laterstatus !st.isServerStream && e1 == nil && e2 != nil && e2 != io.EOF ==> err == e2 && ok == ok2 && data == nil
 //@   ensures[C16]     @second    !st.isServerStream && e1 == nil && e2 == nil ==> isStatus(err, codes.Internal) && !ok && data == nil && st.readErr == err
 //@   ensures[C16]     @streaming st.isServerStream ==> count("call:readMsgLocked") == 1
 //@   ensures[C01]     @errnodata err != nil ==> data == nil
@@ -1040,9 +1069,11 @@ package grpctunnel
 //@   at call WithCancel#1
 //@     assert[C04,C17] @parent arg0 == old(ctx)
 //@   at call WithValue#1
-//@     assert[C17] @tunnelmd id(arg2) == c.tunnelMetadata
+//@     assert[C17] @tunnelmd id(arg2) == c.tunnelMetadata && arg1 is tunnelMetadataOutgoingContextKey
 //@   at call WithValue#2
-//@     assert[C17] @channel id(arg2) == c
+//@     assert[C17] @channel id(arg2) == c && arg2 is *tunnelChannel && arg1 is tunnelChannelContextKey
+//@   at store deref.ch#1
+//@     assert[C17] @calloption arg1 is *tunnelChannel && id(arg1) == c
 //@   ensures[C04]     @closed   old(c.finished) ==> result2 != nil && result0 == nil && c.lastStreamID == old(c.lastStreamID) && c.streams == old(c.streams)
 //@   ensures[C08]     @exhausted (old(c.lastStreamID) < 0 || old(c.lastStreamID) == math.MaxInt64) ==> result2 != nil
 //@   ensures[C08]     @nextid   result2 == nil ==> result0 != nil && result0.streamID == old(c.lastStreamID) + 1 && result0.streamID > old(c.lastStreamID) && c.lastStreamID == result0.streamID && c.streamCreated
@@ -1584,16 +1615,47 @@ package grpctunnel
 
 //@ func TunnelMetadataFromIncomingContext
 //@   requires ctx != nil
-//@   ensures[C17] @copied count("ext:Copy") == 1
+//@   ghost stored any = nil
+//@   ghost cp metadata.MD = nil
+//@   at call Value#1
+//@     assert[C17] @key recv == ctx && arg0 is tunnelMetadataIncomingContextKey
+//@   at aftercall Value#1
+//@     ghost stored = result
+//@   at call Copy#1
+//@     assert[C17] @source stored is metadata.MD ==> arg0 == as(stored, metadata.MD)
+//@   at aftercall Copy#1
+//@     ghost cp = result
+//@   ensures[C17] @copied  count("ext:Copy") == 1
+//@   ensures[C17] @private result0 == cp && fresh(result0)
+//@   ensures[C17] @found   result1 <==> stored is metadata.MD
 //@   assigns nothing
 
 //@ func TunnelMetadataFromOutgoingContext
 //@   requires ctx != nil
-//@   ensures[C17] @copied count("ext:Copy") == 1
+//@   ghost stored any = nil
+//@   ghost cp metadata.MD = nil
+//@   at call Value#1
+//@     assert[C17] @key recv == ctx && arg0 is tunnelMetadataOutgoingContextKey
+//@   at aftercall Value#1
+//@     ghost stored = result
+//@   at call Copy#1
+//@     assert[C17] @source stored is metadata.MD ==> arg0 == as(stored, metadata.MD)
+//@   at aftercall Copy#1
+//@     ghost cp = result
+//@   ensures[C17] @copied  count("ext:Copy") == 1
+//@   ensures[C17] @private result0 == cp && fresh(result0)
+//@   ensures[C17] @found   result1 <==> stored is metadata.MD
 //@   assigns nothing
 
 //@ func TunnelChannelFromContext
 //@   requires ctx != nil
+//@   ghost stored any = nil
+//@   at call Value#1
+//@     assert[C17] @key recv == ctx && arg0 is tunnelChannelContextKey
+//@   at aftercall Value#1
+//@     ghost stored = result
+//@   ensures[C17] @exact  stored is TunnelChannel ==> result == as(stored, TunnelChannel)
+//@   ensures[C17] @absent !(stored is TunnelChannel) ==> result == nil
 //@   assigns nothing
 
 // ---------------------------------------------------------------------------
